@@ -70,6 +70,22 @@ CHECKS = {
          "All 22 fixed->float instantiations; range, reference levels, (strict) monotonicity, accuracy within one step + float rounding, and the round trip through the real inverse conversion, complete for 8/16-bit sources and (thorough) 32-bit sources. The UnsignedAsFloat divisor defect is a recorded known finding keyed by instantiation, kind and input set; anything else is a violation.",
          "Accuracy decided in float64 outside a 2^-20 guard band and in big.Rat inside it and for 64-bit sources.",
          "6/C09"),
+ "C10": ("history monitor on one pool (fresh-allocation oracle + address-interval registry + outstanding-buffer shadows), plain and -race builds",
+         "Seeded get/use/put/GC histories with up to 8 outstanding buffers; every Get is compared with a fresh allocation over its whole capacity and checked for storage disjointness from all outstanding buffers, whose contents are re-verified after every step. Reuse is counted (floor), not asserted.",
+         "Object/storage identity from pinned addresses (verif hook); the -race build is used for sync.Pool's random drop behaviour and its race reports.",
+         "6/C10"),
+ "C11": ("Go race detector + ownership stamps + freshness + interval-overlap scan + porcupine linearizability check of recorded Get/Put histories",
+         "Many short concurrent histories over G x GOMAXPROCS x allocator-sharing configurations; decided by the race detector (quiet mode), by stamps re-read by the holder, by the fresh-buffer oracle, and offline by an overlap scan and porcupine against a held/free model per storage key. Evidence lists configurations, hand-offs and distinct ownership sequences seen.",
+         "Schedules are those the Go scheduler produced; porcupine timeout = inconclusive; a race self-test child proves the detector and report parsing are live.",
+         "6/C11"),
+ "C18": ("allocation-counter monitor (runtime.MemStats) around steady-state operations on real typed buffers, with a detected control",
+         "Every hot-path operation of every element type, all 169 transfer pairs and all 169 conversions is executed 200 times on pre-allocated buffers with GC off and GOMAXPROCS(1); the malloc delta (minimum of 3 repetitions) must be 0, Slice at most one constant-size header per call.",
+         "Plain build; an allocating control operation must be seen in every run or the run is inconclusive.",
+         "6/C18"),
+ "C19": ("Go race detector + sequential-equivalence digests over shared-reader / disjoint-writer workloads",
+         "Readers run every read-only entry point on one shared buffer while writers obtain their own Slice concurrently and write inside it; the race detector decides races, and reader digests plus final buffer contents are compared with a sequential execution of the same seeded work.",
+         "Schedules are those the Go scheduler produced (GOMAXPROCS 1/4/16, random yields); race self-test child as in C11.",
+         "6/C19"),
 }
 PENDING = {}
 
